@@ -3,10 +3,11 @@
    autobahn.wamp.protocol.ApplicationSession), proofs: Proofs/SessionProofs.v.
    [cfg] ranges over the behaviours of the user's callbacks (return / raise, reaching the default implementation or
    not) and the two transport behaviours after close() (send raises / send still accepted); histories [ops] are arbitrary (any router, any schedule).
-   Trace-level statements are proved for the Twisted continuation semantics; for asyncio the corresponding statements
-   are FALSE of the faithful model and are refuted below with replayable witnesses. *)
+   Trace-level statements are proved for the Twisted continuation semantics, and for asyncio histories in which the
+   loop runs to quiescence between any two events ([settle]); for arbitrary asyncio schedules they are FALSE of the
+   faithful model and are refuted below with replayable witnesses. *)
 From Coq Require Import NArith List Bool.
-From AV Require Import Gen.WampTypeCodes Model.Session Proofs.SessionProofs.
+From AV Require Import Gen.WampTypeCodes Model.Session Proofs.SessionProofs Proofs.SessionAioProofs.
 Import ListNotations.
 Open Scope N_scope.
 
@@ -51,6 +52,35 @@ Theorem C06_order_refuted_asyncio :
   exists cfg ops, mrun MFresh (levs (trace Aio cfg ops)) = None.
 Proof. exists default_cfg, [OOpen; OTurn; RWelcome 1; OTurn; OLost false; OTurn]. vm_compute. reflexivity. Qed.
 Print Assumptions C06_order_refuted_asyncio.
+
+(* asyncio, PARTIAL: if the event loop runs until nothing is scheduled after every event (two iterations always
+   suffice: [settle] inserts them), the life-cycle events of ANY history are exactly those of Twisted on the same
+   history (a missing signature from onChallenge counts as a raising onChallenge: asyncio routes the exception of the
+   success callback to the errback, [aio_cfg]); nothing is left scheduled.  What is missing for arbitrary schedules
+   is exactly what the refutations around this theorem exhibit. *)
+Theorem C06_asyncio_settled_lifecycle : forall cfg ops,
+  levs (trace Aio cfg (settle ops)) = levs (trace Tx (aio_cfg cfg) ops)
+  /\ queue (final Aio cfg (settle ops)) = [].
+Proof. exact aio_settled_lifecycle. Qed.
+Print Assumptions C06_asyncio_settled_lifecycle.
+
+(* one event plus two loop iterations, from a state with nothing scheduled: exactly the Twisted step *)
+Theorem C06_asyncio_settled_step : forall cfg s o, queue s = [] ->
+  let r := macro cfg s o in
+  levs (snd r) = spec_levs (aio_cfg cfg) s o /\ lcore (fst r) = spec_lcore (aio_cfg cfg) s o
+  /\ topen (fst r) = spec_topen (aio_cfg cfg) s o /\ queue (fst r) = [].
+Proof. exact aio_macro_spec. Qed.
+Print Assumptions C06_asyncio_settled_step.
+
+Theorem C06_order_partial_asyncio_settled : forall cfg ops,
+  exists m, mrun MFresh (levs (trace Aio cfg (settle ops))) = Some m.
+Proof. exact aio_settled_order. Qed.
+Print Assumptions C06_order_partial_asyncio_settled.
+
+Theorem C06_goodbye_once_partial_asyncio_settled : forall cfg ops,
+  grun false (levs (trace Aio cfg (settle ops))) <> None.
+Proof. exact aio_settled_goodbye_once. Qed.
+Print Assumptions C06_goodbye_once_partial_asyncio_settled.
 
 (* asyncio (DESIGN F-C06-1): WELCOME immediately followed by GOODBYE in one loop iteration: the GOODBYE is rejected as
    "session is not yet established", the session then joins and never leaves *)
@@ -232,6 +262,12 @@ Example C06_witness_one_of_each_aio :
   pend s' = [] /\ queue s' = [] /\ length (done s') = 8%nat
   /\ levs (trace Aio default_cfg (one_of_each ++ [OLost false; OTurn; OTurn])) = [LvConnect; LvJoin; LvLeave; LvDisconnect].
 Proof. vm_compute. repeat split; reflexivity. Qed.
+
+(* the conversation that breaks asyncio when unsettled (WELCOME, GOODBYE) is fine when settled *)
+Example C06_witness_asyncio_settled :
+  levs (trace Aio default_cfg (settle [OOpen; RWelcome 1; RGoodbye RsNormal; OLost true]))
+    = [LvConnect; LvJoin; LvGoodbye; LvLeave; LvDisconnect].
+Proof. vm_compute. reflexivity. Qed.
 
 (* the closing handshake in both directions (Twisted) *)
 Example C06_witness_goodbye_both_ways :
